@@ -59,6 +59,10 @@ def parseQ (s : String) : Option Q :=
   | ["cs"] => some .curSchema
   | ["put", v] => v.toInt?.map .put
   | ["all"] => some .getAll
+  | ["begin"] => some .begin
+  | ["commit"] => some .commit
+  | ["rollback"] => some .rollback
+  | ["fail"] => some .fail
   | _ => none
 
 /-- `L:<tok>:<backing>:<schema>` | `Q:<auth or ->:<q>` — tok/auth as code-point strings -/
@@ -71,6 +75,7 @@ def parseReq (s : String) : Option Req :=
 def encResp : Resp → String
   | .token t => s!"T:{encStr t}" | .unauthorized c => s!"U:{c}" | .status => "S"
   | .val v => s!"V:{encOptInt v}" | .schema n => s!"C:{n}" | .rows vs => "R:" ++ ",".intercalate (vs.map toString)
+  | .error => "E" | .unsupported => "X"
 
 def handle : List String → String
   | ["ts", tz, us] =>
